@@ -1,3 +1,4 @@
+import re
 """Per-property configuration of ./check: Lean targets, harness suites, projections, trusted base."""
 
 TRUSTED_COMMON = [
@@ -9,7 +10,8 @@ TRUSTED_COMMON = [
 from engproj import compare_lines
 
 def eng(keys):
-    return lambda case, impl, model: compare_lines(impl, model, keys, long_lived=case.startswith('mode=long'), no_lookup_log=' res=db' in case)
+    return lambda case, impl, model: compare_lines(impl, model, keys, long_lived=case.startswith('mode=long'), no_lookup_log=' res=db' in case,
+                                               no_call_log=' res=db' in case and re.search(r' opt=\S*static', case) is not None)
 
 ENGINE_TRUSTED = [
     "text/template is modelled for literal text and {{.name}} placeholders only (missingkey=error); generated inputs never contain '{' (an error prefix quoting such input would be parsed as a template action)",
